@@ -11,6 +11,9 @@
   the deferred function, where `recover()` returns nil (Go spec, "Handling panics": recover must be called
   directly by the deferred function), whereas `defer F()` makes F the deferred function itself.  The flag
   `deferGuard` says whether the optimiser has condition (4) (the pinned tree had not: finding D23).
+  A closure in value position may still reach a defer statement later, through a variable or a parameter
+  (`h := func() int { return F() }; defer h()`); the optimiser cannot see that and reduces - the open finding
+  D25, for which soundness is proved only under the hypothesis that the value is not deferred later.
 -/
 set_option autoImplicit false
 
@@ -35,14 +38,20 @@ deriving DecidableEq, Repr
 
 /-- where the function literal stands: anywhere a value can (assigned, passed, called in place), or as the
     function of a deferred call -/
-inductive Pos | value | deferred
+inductive Pos
+  | value (deferredLater : Bool)   -- a value; whether some defer statement later calls it is not visible here
+  | deferred                       -- the function of a deferred call
 deriving DecidableEq, Repr
+
+def Pos.isDeferredCall : Pos → Bool
+  | .deferred => true
+  | .value _ => false
 
 structure Closure where
   callee : Callee
   args : Args
   sameType : Bool
-  pos : Pos := .value
+  pos : Pos := .value false
 deriving DecidableEq, Repr
 
 /-- the callee expression can stand alone as a function value -/
@@ -62,7 +71,7 @@ def stable : Callee → Bool
 
 /-- the optimiser's decision (`deferGuard = false`: the decision of the pinned tree, finding D23) -/
 def etaOKq (deferGuard : Bool) (c : Closure) : Bool :=
-  decide (c.args = .same) && stable c.callee && c.sameType && (!deferGuard || decide (c.pos = .value))
+  decide (c.args = .same) && stable c.callee && c.sameType && (!deferGuard || !c.pos.isDeferredCall)
 
 def etaOK (c : Closure) : Bool := etaOKq true c
 
@@ -93,7 +102,8 @@ def evalCallee : Callee → World → Option (Nat × Nat)
 abbrev Obs := Option (Nat × Args × Nat × Nat × Nat)
 
 def belowDeferred : Pos → Nat
-  | .value => 0
+  | .value false => 0
+  | .value true => 1
   | .deferred => 1
 
 /-- the closure, created in world w1 and called in world w2: F is evaluated at the call -/
@@ -110,25 +120,40 @@ def obsReduced (c : Closure) (w1 _w2 : World) : Obs :=
   | some (f, e) => some (f, .same, e, 0, 0)
   | none => none
 
-/-- **soundness of the side conditions**: whenever the optimiser reduces, nothing can tell the difference -
-    for every state at creation and every state at the call -/
-theorem etaOK_sound (c : Closure) (h : etaOK c = true) (w1 w2 : World) : obsReduced c w1 w2 = obsClosure c w1 w2 := by
+/-- **soundness of the side conditions** (partial: for closures that no defer statement calls later - D25):
+    whenever the optimiser reduces, nothing can tell the difference - for every state at creation and every
+    state at the call -/
+theorem etaOK_sound_partial (c : Closure) (h : etaOK c = true) (hnd : c.pos ≠ .value true) (w1 w2 : World) :
+    obsReduced c w1 w2 = obsClosure c w1 w2 := by
   obtain ⟨callee, args, sameType, pos⟩ := c
   simp only [etaOK, etaOKq, Bool.and_eq_true, decide_eq_true_eq, Bool.not_true, Bool.false_or] at h
   obtain ⟨⟨⟨ha, hs⟩, ht⟩, hp⟩ := h
   subst ha
   subst ht
-  subst hp
+  have hpos : belowDeferred pos = 0 := by
+    cases pos with
+    | deferred => simp [Pos.isDeferredCall] at hp
+    | value d => cases d with
+      | false => rfl
+      | true => exact absurd rfl hnd
   cases callee with
-  | declared g i => simp only [stable] at hs; simp [obsReduced, obsClosure, evalCallee, belowDeferred, hs]
-  | pkgFunc g i => simp only [stable] at hs; simp [obsReduced, obsClosure, evalCallee, belowDeferred, hs]
-  | methodOfIterVar => rfl
+  | declared g i => simp only [stable] at hs; simp [obsReduced, obsClosure, evalCallee, hpos, hs]
+  | pkgFunc g i => simp only [stable] at hs; simp [obsReduced, obsClosure, evalCallee, hpos, hs]
+  | methodOfIterVar => simp [obsReduced, obsClosure, evalCallee, hpos]
   | _ => cases hs
+
+/-- **D25** (kernel-checked): the full statement is false - a closure in value position that a defer statement
+    calls later is reduced, and the reduced value is observably different in every state -/
+theorem D25_value_deferred_later :
+    etaOK ⟨.declared false false, .same, true, .value true⟩ = true ∧
+    ∀ w1 w2, obsReduced ⟨.declared false false, .same, true, .value true⟩ w1 w2
+              ≠ obsClosure ⟨.declared false false, .same, true, .value true⟩ w1 w2 :=
+  ⟨by decide, fun _ _ => by simp [obsReduced, obsClosure, evalCallee, belowDeferred]⟩
 
 /-- **necessity**: for every callee the decision refuses there are states in which the reduced value is
     observably different from the closure (or does not compile) -/
 theorem stable_necessary (callee : Callee) (h : stable callee = false) :
-    ∃ w1 w2, obsReduced ⟨callee, .same, true, .value⟩ w1 w2 ≠ obsClosure ⟨callee, .same, true, .value⟩ w1 w2 := by
+    ∃ w1 w2, obsReduced ⟨callee, .same, true, .value false⟩ w1 w2 ≠ obsClosure ⟨callee, .same, true, .value false⟩ w1 w2 := by
   refine ⟨⟨1⟩, ⟨2⟩, ?_⟩
   cases callee with
   | declared g i => simp only [stable] at h; simp [obsReduced, obsClosure, evalCallee, h]
@@ -137,11 +162,11 @@ theorem stable_necessary (callee : Callee) (h : stable callee = false) :
   | _ => simp [obsReduced, obsClosure, evalCallee]
 
 theorem args_necessary (a : Args) (h : a ≠ .same) (w : World) :
-    obsReduced ⟨.declared false false, a, true, .value⟩ w w ≠ obsClosure ⟨.declared false false, a, true, .value⟩ w w := by
+    obsReduced ⟨.declared false false, a, true, .value false⟩ w w ≠ obsClosure ⟨.declared false false, a, true, .value false⟩ w w := by
   cases a <;> simp_all [obsReduced, obsClosure, evalCallee]
 
 theorem type_necessary (w : World) :
-    obsReduced ⟨.declared false false, .same, false, .value⟩ w w ≠ obsClosure ⟨.declared false false, .same, false, .value⟩ w w := by
+    obsReduced ⟨.declared false false, .same, false, .value false⟩ w w ≠ obsClosure ⟨.declared false false, .same, false, .value false⟩ w w := by
   simp [obsReduced, obsClosure, evalCallee]
 
 /-- condition (4) is necessary: reducing the function of a deferred call moves F up to the deferred function
@@ -159,7 +184,7 @@ theorem D23_pinned_decision_unsound :
   ⟨by decide, position_necessary _⟩
 
 /-- outside deferred position the two decisions coincide -/
-theorem etaOKq_value (g : Bool) (c : Closure) (h : c.pos = .value) : etaOKq g c = etaOK c := by
+theorem etaOKq_value (g : Bool) (c : Closure) (h : c.pos.isDeferredCall = false) : etaOKq g c = etaOK c := by
   simp [etaOK, etaOKq, h]
 
 end GoCo.EtaD
